@@ -729,9 +729,19 @@ impl<'a> Parser<'a> {
             let op = self.current().clone();
             self.next()?;
 
-            let mut rhs = self.parse_unary_operator()?;
-            if token_precedence < self.get_token_precedence()? {
-                rhs = self.parse_binary_operator_rhs(token_precedence + 1, rhs)?;
+            let mut rhs = match op {
+                // The index is a complete expression, delimited by the closing bracket
+                Token::LeftSquareParentheses => self.parse_expression_internal()?,
+                _ => self.parse_unary_operator()?
+            };
+
+            match op {
+                Token::LeftSquareParentheses => {}
+                _ => {
+                    if token_precedence < self.get_token_precedence()? {
+                        rhs = self.parse_binary_operator_rhs(token_precedence + 1, rhs)?;
+                    }
+                }
             }
 
             match op {
@@ -823,14 +833,14 @@ impl<'a> Parser<'a> {
                     None => Err(self.create_error(ParserErrorType::NotDefinedBinaryOperator(op.clone())))
                 }
             }
-            Token::DoubleColon => Ok(7),
-            Token::Keyword(Keyword::Is) => Ok(2),
-            Token::Keyword(Keyword::IsNot) => Ok(2),
-            Token::Keyword(Keyword::In) => Ok(2),
-            Token::Keyword(Keyword::NotIn) => Ok(2),
-            Token::Keyword(Keyword::And) => Ok(1),
+            Token::DoubleColon => Ok(8),
+            Token::Keyword(Keyword::Is) => Ok(4),
+            Token::Keyword(Keyword::IsNot) => Ok(4),
+            Token::Keyword(Keyword::In) => Ok(4),
+            Token::Keyword(Keyword::NotIn) => Ok(4),
+            Token::Keyword(Keyword::And) => Ok(2),
             Token::Keyword(Keyword::Or) => Ok(1),
-            Token::LeftSquareParentheses => Ok(1),
+            Token::LeftSquareParentheses => Ok(8),
             _ => Ok(-1)
         }
     }
@@ -948,6 +958,13 @@ impl<'a> Parser<'a> {
         };
 
         let operand = self.parse_unary_operator()?;
+
+        // NOT binds looser than the comparisons (precedence 4), unary minus looser than cast, subscript and '.' (8 and above)
+        let operand = match op_token {
+            Token::Keyword(Keyword::Not) => self.parse_binary_operator_rhs(4, operand)?,
+            _ => self.parse_binary_operator_rhs(8, operand)?
+        };
+
         match op_token {
             Token::Operator(op) => {
                 if !self.unary_operators.exists(&op) {
